@@ -67,6 +67,33 @@ class _NullTransport:
         pass
 
 
+def _dying(nodes: dict) -> dict:
+    """The same registry, but the process dies while its first node is being serialised (its sketch name is read):
+    a crash instant between raw device operations, wherever in its sequence the save happens to serialise."""
+    from vsim.loop import SimCrash
+
+    out = dict(nodes)
+    for key, node in nodes.items():
+        cls = type(node)
+
+        class Dying(cls):  # type: ignore[misc, valid-type]
+            @property
+            def sketch_name(self):
+                raise SimCrash
+
+            @sketch_name.setter
+            def sketch_name(self, value):
+                pass
+
+        clone = Dying.__new__(Dying)
+        for attr in ("node_id", "node_type", "protocol_version", "children", "sketch_version", "battery_level",
+                     "heartbeat", "reboot", "sleeping"):
+            setattr(clone, attr, getattr(node, attr))
+        out[key] = clone
+        break
+    return out
+
+
 def _restarts(image, res, icls, first, detail):
     """The process is started again - twice - the way an application does it: a new Gateway on the surviving file,
     context entered and left.  "The file afterwards loads to the old or the new registry" also has to hold after a
@@ -184,12 +211,17 @@ def run(scn) -> RunResult:
                 for off in sorted({1, size // 2, size - 1}):
                     if 0 < off < size:
                         points.append((k, off))
+        if scn["new"]:
+            points.append(("ser", None))
         if scn.get("points"):
             points = [tuple(p) for p in scn["points"]]
         res.states.add(("C15", nops))
         for k, torn in points:
             res.ops += 1
-            res.probes["no_crash_reference"] += int(k >= nops)
+            in_ser = k == "ser"
+            if in_ser:
+                k = nops  # no crash point at the device: the process dies in the serialiser instead
+            res.probes["no_crash_reference"] += int(k >= nops and not in_ser)
             # ---- crash run ----
             pw = PWorld(scn.get("tapes"))
             try:
@@ -197,7 +229,7 @@ def run(scn) -> RunResult:
                 _save(pw, build_nodes(scn["old"]))
                 pw.disk.crash_at = pw.disk.nops + k if k < nops else None
                 pw.disk.torn = torn
-                kind, val = _save(pw, build_nodes(scn["new"]))
+                kind, val = _save(pw, _dying(build_nodes(scn["new"])) if in_ser else build_nodes(scn["new"]))
                 crashed = pw.loop.crashed
                 image = pw.disk.image(PATH)
                 h.update(pw.elog.digest().encode())
@@ -206,7 +238,11 @@ def run(scn) -> RunResult:
                 res.steps += pw.loop.steps
             finally:
                 pw.close()
-            if crashed:
+            if in_ser:
+                if not crashed:
+                    raise RuntimeError(f"crash in the serialiser did not fire ({kind} {val!r})")
+                res.probes["crash_while_serialising"] += 1
+            elif crashed:
                 opk = ops[k][0]
                 if k == 0:
                     res.probes["crash_before_open"] += 1
@@ -259,10 +295,10 @@ def run(scn) -> RunResult:
                     lres = "read-error"
                 else:
                     lres = f"error:{type(v).__name__ if v is not None else o}"
-                res.violate(PROP, "post-crash-load", f"{icls}:{lres}",
-                            f"crash at raw op {k}/{nops} ({ops[k][0] if k < len(ops) else 'none'}) torn={torn}: image "
+                res.violate(PROP, "post-crash-load", f"{icls}:{lres}" + (":died-while-serialising" if in_ser else ""),
+                            f"crash at raw op {'(in the serialiser)' if in_ser else k}/{nops} ({ops[k][0] if k < len(ops) else 'none'}) torn={torn}: image "
                             f"{len(image) if image is not None else None} bytes of {len(new_image)}; old={len(old_image)} "
-                            f"bytes; loaded {o} {v!r}; replay with points=[[{k}, {torn if torn else 'null'}]]"[:600])
+                            f"bytes; loaded {o} {v!r}; replay with points=[[{'"ser"' if in_ser else k}, {torn if torn else 'null'}]]"[:600])
         res.probes["crash_points"] += len(points)
     res.digest = h.hexdigest()
     res.nontrivial_key = ("C15", scn["old"], scn["new"], scn.get("write_limit"))
